@@ -18,6 +18,8 @@ one S32-is-unique seeded/S32-C03-is-unique-check-then-act/patch.diff C03
 one S47-notified-flag seeded/S47-C01-notified-flag-reset-before-register/patch.diff C01
 one S48-idle-group-peek seeded/S48-C01-idle-group-peek-before-register/patch.diff C01
 one S50-push-check-then-act seeded/S50-C01-push-check-then-act/patch.diff C01
+one S72-notify-before-enqueue seeded/S72-C01-notify-before-enqueue/patch.diff C01
+one S74-draining-mark seeded/S74-C01-draining-mark-skips-notify/patch.diff C01
 one e2a-notify-before-enqueue mutants/e2a-notify-before-enqueue.diff C01
 one e2b-register-after-drain mutants/e2b-register-after-drain.diff C01
 one m03a-clone-without-inc mutants/m03a-clone-without-inc.diff C03
